@@ -536,6 +536,14 @@ fn check_case(l: &mut Local, case: &Case, qrng: &mut Rng, log: bool) {
     if cd < n_nodes {
         l.v("cost-at-least-values", key.clone(), format!("decoding cost {cd} is below the number of values on the wire ({n_nodes}): some values are free"));
     }
+    // every byte of the value section that was read (decoded, validated, copied or skipped) is work:
+    // a successful decode cannot cost (much) less than the bytes it consumed
+    let value_bytes = bytes.len().saturating_sub(crate::models::rd::parse(&bytes).map(|p| p.header_len).unwrap_or(bytes.len()));
+    l.max("value_bytes_over_cost", value_bytes as f64 / (cd as f64 + 1.0));
+    // (on the unchanged tree every byte is charged at least once: largest observed bytes/cost is 0.83)
+    if (value_bytes as f64) > 1.25 * cd as f64 + 32.0 {
+        l.v("cost-at-least-bytes-read", key.clone(), format!("decoding cost {cd} although {value_bytes} bytes of values were read: part of the input is processed free of charge"));
+    }
     if cs < skip_lb {
         l.v("skipped-data-charged-to-skipping-quota", key.clone(), format!("skipping cost {cs} is below the number of skipped values ({skip_lb})"));
     }
